@@ -481,6 +481,38 @@ func (s *scope) setInstance(descriptor *Descriptor, key instanceKey, instance an
 	return nil
 }
 
+// ownDropped enters a constructor result that is not stored under any identity
+// into the disposal list of its owner: the provider for a singleton
+// registration, this scope otherwise.
+func (s *scope) ownDropped(lifetime Lifetime, value any) error {
+	d, ok := value.(Disposable)
+	if !ok {
+		return nil
+	}
+
+	if v := reflect.ValueOf(value); v.Kind() == reflect.Pointer && v.IsNil() {
+		return nil
+	}
+
+	if lifetime == Singleton {
+		p := s.rootProvider
+		p.disposablesMu.Lock()
+		p.disposables = append(p.disposables, d)
+		p.disposablesMu.Unlock()
+		return nil
+	}
+
+	s.disposablesMu.Lock()
+	if s.disposablesClosed {
+		s.disposablesMu.Unlock()
+		return s.rejectInstance(value)
+	}
+	s.disposables = append(s.disposables, d)
+	s.disposablesMu.Unlock()
+
+	return nil
+}
+
 // rejectInstance disposes an instance that was constructed while the scope was
 // being closed and reports the scope as disposed.
 func (s *scope) rejectInstance(instance any) error {
@@ -719,6 +751,20 @@ func (s *scope) createInstance(descriptor *Descriptor) (any, error) {
 		return s.setInstance(output, key, value)
 	}
 
+	// A result whose identity has been removed from the collection cannot be
+	// asked for, but the constructor created it on behalf of the container:
+	// it is disposed together with the other results.
+	dropOutput := func(value any) error {
+		for _, earlier := range tracked {
+			if sameObject(earlier, value) {
+				return nil
+			}
+		}
+
+		tracked = append(tracked, value)
+		return s.ownDropped(descriptor.Lifetime, value)
+	}
+
 	// Handle result objects (Out structs)
 	if info.IsResultObject {
 		processor := reflection.NewResultObjectProcessor(s.rootProvider.analyzer)
@@ -780,6 +826,10 @@ func (s *scope) createInstance(descriptor *Descriptor) (any, error) {
 				// This output has been removed from the collection: its value
 				// is dropped, it must not end up under the identity of another
 				// registration.
+				if err := dropOutput(value); err != nil {
+					setErr = err
+				}
+
 				continue
 			}
 
@@ -832,6 +882,10 @@ func (s *scope) createInstance(descriptor *Descriptor) (any, error) {
 				// This return value has been removed from the collection: it
 				// is dropped, it must not end up under the identity of
 				// another registration.
+				if err := dropOutput(value); err != nil {
+					setErr = err
+				}
+
 				continue
 			}
 
